@@ -23,6 +23,8 @@ open Marwood.Heap (GcState vrefs vrefsList crefs contRefs Roots)
 open Marwood.Lemmas.GcSafety Marwood.Lemmas.GcMark Marwood.Lemmas.HeapOps Marwood.Lemmas.Sim
 open Classical
 
+variable {V : VCell → Prop}
+
 /-- what is known about the heap a collection returns -/
 structure Collected (h : CHeap) (refs : List Nat) (h' : Heap.Heap) : Prop where
   gs : GcSpec true (toHeap h) refs h'
@@ -30,11 +32,11 @@ structure Collected (h : CHeap) (refs : List Nat) (h' : Heap.Heap) : Prop where
   free : ∀ p, p ∈ h'.free →
     (h.gc[p]? = some GcState.allocated ∧ ¬ Reachable true (toHeap h) refs p) ∨ p ∈ h.free ∨ h.cells.size ≤ p
 
-theorem toHeap_shape {h : CHeap} (inv : CInv h) : Shape (toHeap h) := by
+theorem toHeap_shape {h : CHeap} (inv : CInvG V h) : Shape (toHeap h) := by
   have := inv.shape
   simpa [toHeap, Shape] using this
 
-theorem collected_of_run {h : CHeap} (inv : CInv h) {force : Bool} {r : Roots} {h' : Heap.Heap}
+theorem collected_of_run {h : CHeap} (inv : CInvG V h) {force : Bool} {r : Roots} {h' : Heap.Heap}
     (hrun : Heap.Heap.runGc true force (toHeap h) r = .ok (.collected h')) : Collected h (r.refs true) h' := by
   have hsz : (toHeap h).gc.size = (toHeap h).cells.size := by simp [toHeap, inv.sizes]
   have hnu : ∀ i : Nat, (toHeap h).gc[i]? ≠ some GcState.used := inv.noUsed
@@ -105,7 +107,7 @@ theorem liftGc_code {h : CHeap} {h' : Heap.Heap} {i : Nat} {c : CCell}
   · cases hc
 
 /-- a reachable cell of the old heap is the same cell of the collected heap -/
-theorem liftGc_reach {h : CHeap} (inv : CInv h) {refs : List Nat} {h' : Heap.Heap} (co : Collected h refs h')
+theorem liftGc_reach {h : CHeap} (inv : CInvG V h) {refs : List Nat} {h' : Heap.Heap} (co : Collected h refs h')
     {x : Nat} (hx : Reachable true (toHeap h) refs x) : (liftGc h h').cells[x]? = h.cells[x]? := by
   have hga := co.gs.gc_reach x hx
   have hlt : x < h.cells.size := by
@@ -127,7 +129,7 @@ theorem reachable_of_kept {h : CHeap} {refs : List Nat} {h' : Heap.Heap} (co : C
   exact Classical.byContradiction fun hn => hnf (co.gs.gc_unreach x hlt hn)
 
 /-- a lambda that is reachable keeps its bytecode -/
-theorem codeC_reach {h : CHeap} (inv : CInv h) {refs : List Nat} {h' : Heap.Heap} (co : Collected h refs h')
+theorem codeC_reach {h : CHeap} (inv : CInvG V h) {refs : List Nat} {h' : Heap.Heap} (co : Collected h refs h')
     {l : Nat} {bc : List VCell} (hc : codeC h l = some bc) (hx : Reachable true (toHeap h) refs l) :
     codeC (liftGc h h') l = some bc := by
   obtain ⟨lam, h1, h2⟩ := codeC_some hc
@@ -136,11 +138,11 @@ theorem codeC_reach {h : CHeap} (inv : CInv h) {refs : List Nat} {h' : Heap.Heap
   rw [codeC_of_cell this, h2]
 
 /-- the invariant survives a collection -/
-theorem liftGc_inv {h : CHeap} (inv : CInv h) {refs : List Nat} {h' : Heap.Heap} (co : Collected h refs h') :
-    CInv (liftGc h h') := by
+theorem liftGc_inv {h : CHeap} (inv : CInvG V h) {refs : List Nat} {h' : Heap.Heap} (co : Collected h refs h') :
+    CInvG V (liftGc h h') := by
   have hsize : (liftGc h h').cells.size = h'.cells.size := by simp [liftGc]
   have hcs : (toHeap h).cells.size = h.cells.size := by simp [toHeap]
-  refine ⟨?_, ?_, ?_, ?_, ?_, ?_, ?_⟩
+  refine ⟨?_, ?_, ?_, ?_, ?_, ?_, ?_, ?_⟩
   · rw [hsize]; exact co.gs.sizes
   · obtain ⟨a, b, k, hk, hk2⟩ := co.shape
     have hc : h'.chunk = h.chunk := co.gs.chunk
@@ -166,11 +168,24 @@ theorem liftGc_inv {h : CHeap} (inv : CInv h) {refs : List Nat} {h' : Heap.Heap}
   · intro l lam hl
     obtain ⟨hold, _, _⟩ := liftGc_code hl (by intro hh; cases hh)
     exact inv.noIofArg l lam hold
+  · intro l lam hl
+    obtain ⟨hold, _, _⟩ := liftGc_code hl (by intro hh; cases hh)
+    exact inv.lamArgs l lam hold
   · intro p c hc
     obtain ⟨hold, hnf, hlt⟩ := liftGc_code hc (by intro hh; cases hh)
     have hp : Reachable true (toHeap h) refs p := reachable_of_kept co hlt hnf
     obtain ⟨K, hk⟩ := inv.cont p c hold
-    refine ⟨K, hk.cap, hk.frames.mono_on ?_⟩
+    have hmono : ∀ l1 t, tyOf (codeC h) l1 = some t →
+        (l1 = c.ipL ∨ ∃ i o1, i ≤ c.stack.sp ∧ c.stack.cellAt i = .instrPtr l1 o1) →
+        tyOf (codeC (liftGc h h')) l1 = some t := ?_
+    · refine ⟨K, hk.cap, hk.frames.mono_on hmono, ?_⟩
+      intro t ht
+      obtain ⟨t0, _, ht0, _⟩ := hk.frames.has_ty
+      have := hmono _ _ ht0 (.inl rfl)
+      rw [ht] at this
+      have e : t = t0 := Option.some.inj this
+      rw [e]
+      exact hk.body t0 ht0
     intro l1 t ht hor
     -- `l1` is a child of the continuation cell `p`
     have hcode : ∃ bc, codeC h l1 = some bc := by
@@ -214,12 +229,131 @@ theorem cgc_cases (force : Bool) (s : St CHeap) :
     exact .inr ⟨h', heq, rfl⟩
   · exact .inl rfl
 
+/-- the collector keeps a lambda that `ip.0` or a saved `InstructionPointer` on the live stack refers to -/
+theorem cgc_roots (force : Bool) (s : St CHeap) (l : Nat) (bc : List VCell) (hi : CInvG V s.heap)
+    (hc : codeC s.heap l = some bc)
+    (hor : l = s.ipL ∨ ∃ i o, i ≤ s.stack.sp ∧ s.stack.cellAt i = .instrPtr l o) :
+    codeC (cgc force s).heap l = some bc := by
+    rcases cgc_cases force s with e | ⟨h', hrun, e⟩
+    · rw [e]; exact hc
+    · rw [e]
+      have inv : CInvG V s.heap := hi
+      have co := collected_of_run inv hrun
+      refine codeC_reach inv co hc ?_
+      obtain ⟨lam, hcell, _⟩ := codeC_some hc
+      have hl : l < (toHeap s.heap).gc.size := by
+        have := lt_of_getElem? hcell
+        show l < s.heap.gc.size
+        rw [inv.sizes]; exact this
+      refine Reach.root ?_ hl
+      rcases hor with rfl | ⟨i, o, hi', hf⟩
+      · simp [Roots.refs, rootsOf]
+      · refine mem_refs_stack ?_
+        show l ∈ vrefsList true ((s.stack.cells.take (s.stack.sp + 1)).map eraseV)
+        refine vrefsList_mem (c := .instrPtr l o) ?_ (by simp [eraseV, vrefs])
+        unfold Stack.cellAt at hf
+        cases hci : s.stack.cells[i]? with
+        | none => rw [hci] at hf; cases hf
+        | some v =>
+          rw [hci] at hf
+          simp at hf
+          subst hf
+          refine List.mem_of_getElem? (i := i) ?_
+          rw [List.getElem?_take]
+          simp [show i < s.stack.sp + 1 by omega, hci]
+
+theorem cgc_inv (force : Bool) (s : St CHeap) (hi : CInvG V s.heap) : CInvG V (cgc force s).heap := by
+  rcases cgc_cases force s with e | ⟨h', hrun, e⟩
+  · rw [e]; exact hi
+  · rw [e]; exact liftGc_inv hi (collected_of_run hi hrun)
+
+/-- the collector keeps the callee object in `acc` when it designates the code `ip.0` points to: both are
+    roots (`acc`, `ip.0`), marked cells survive with their content -/
+theorem cgc_enterLam (force : Bool) (s : St CHeap) (hi : CInvG V s.heap) {ops : HeapOps CHeap}
+    (hcal : ops.callee = gcallee) (h : enterLam ops s.heap s.acc = some s.ipL) :
+    enterLam ops (cgc force s).heap s.acc = some s.ipL := by
+  rcases cgc_cases force s with e | ⟨h', hrun, e⟩
+  · rw [e]; exact h
+  · rw [e]
+    have co := collected_of_run hi hrun
+    show enterLam ops (liftGc s.heap h') s.acc = some s.ipL
+    unfold enterLam at h ⊢
+    rw [hcal] at h ⊢
+    -- a reachable cell is the same cell afterwards
+    have hroot : ∀ p c, s.heap.cells[p]? = some c → p ∈ (rootsOf s).refs true →
+        (liftGc s.heap h').cells[p]? = some c := by
+      intro p c hc hm
+      have hl : p < (toHeap s.heap).gc.size := by
+        have := lt_of_getElem? hc
+        show p < s.heap.gc.size
+        rw [hi.sizes]; exact this
+      rw [liftGc_reach hi co (Reach.root hm hl)]; exact hc
+    have hproc : ∀ l, procAt s.heap l = true → l = s.ipL → procAt (liftGc s.heap h') l = true := by
+      intro l hp hl
+      unfold procAt at hp ⊢
+      cases hla : lambdaAt s.heap l with
+      | none => rw [hla] at hp; cases hp
+      | some lam =>
+        rw [hla] at hp
+        have := hroot l _ (lambdaAt_iff.mp hla) (by subst hl; simp [Roots.refs, rootsOf])
+        rw [lambdaAt_iff.mpr this]; exact hp
+    cases hacc : s.acc with
+    | ptr p =>
+      rw [hacc] at h
+      cases hcell : s.heap.cells[p]? with
+      | none => simp [gcallee, callee, hcell] at h
+      | some c =>
+        have hm : p ∈ (rootsOf s).refs true := mem_refs_acc (by simp [rootsOf, hacc, eraseV, vrefs])
+        have hc2 := hroot p c hcell hm
+        have hcal2 : callee (liftGc s.heap h') (.ptr p) = callee s.heap (.ptr p) := by
+          simp only [callee, hcell, hc2]
+        unfold gcallee at h ⊢
+        rw [hcal2]
+        cases hcc : callee s.heap (.ptr p) with
+        | closure lam env =>
+          rw [hcc] at h
+          simp only at h ⊢
+          by_cases hp : procAt s.heap lam = true
+          · simp only [hp, if_true] at h
+            have hl : lam = s.ipL := by simpa using h
+            simp only [hproc lam hp hl, if_true]
+            exact h
+          · simp [hp] at h
+        | lambda =>
+          rw [hcc] at h
+          simp only at h ⊢
+          by_cases hp : procAt s.heap p = true
+          · simp only [hp, if_true] at h
+            have hl : p = s.ipL := by simpa using h
+            simp only [hproc p hp hl, if_true]
+            exact h
+          · simp [hp] at h
+        | builtin id => rw [hcc] at h; simp at h
+        | continuation c' => rw [hcc] at h; simp at h
+        | other => rw [hcc] at h; simp at h
+    | closure lam env =>
+      rw [hacc] at h
+      have hcal2 : ∀ hh : CHeap, callee hh (.closure lam env) = .closure lam env := fun _ => rfl
+      unfold gcallee at h ⊢
+      rw [hcal2] at h ⊢
+      simp only at h ⊢
+      by_cases hp : procAt s.heap lam = true
+      · simp only [hp, if_true] at h
+        have hl : lam = s.ipL := by simpa using h
+        simp only [hproc lam hp hl, if_true]
+        exact h
+      · simp [hp] at h
+    | builtin id => rw [hacc] at h; simp [gcallee, callee] at h
+    | _ => rw [hacc] at h; simp [gcallee, callee] at h
+
 /-- **`GcLaws` for the real collector, as a theorem.** -/
 theorem cgc_gcLaws (ext : ExtOps) (ecl : ExtCodeLaws ext) (force : Bool) :
     GcLaws (concreteLaws ext ecl) (cgc force) where
   frame := fun s => by
     obtain ⟨g1, _, _, g4, g5, g6⟩ := cgc_regs force s
     exact ⟨g1, g4, g5, g6⟩
+  acc := fun s => (cgc_regs force s).2.1
+  callee := fun s hi h => cgc_enterLam force s (V := fun _ => True) hi rfl h
   inv := fun s hi => by
     rcases cgc_cases force s with e | ⟨h', hrun, e⟩
     · rw [e]; exact hi
